@@ -350,6 +350,9 @@ theorem step_inv (P : Params) (s s' : State) (hP : P.ignoreDelay + P.lag < P.del
     subst h
     exact ⟨fun b hb => by have := hi.ids_lt b hb; simp only; omega, hi.ids_nodup, hi.src_sorted, hi.witness,
       hi.gw_time, hi.gw_loaded, hi.gw_known⟩
+  | readFault =>
+    simp only [step, Option.some.injEq] at h
+    subst h; exact hi
 
 theorem init_inv (P : Params) (k : Nat) : Inv P (init k) := by
   refine ⟨by simp [init], by simp [init], by simp [init], by simp [init], ?_, ?_, ?_⟩
@@ -402,6 +405,7 @@ theorem step_gws_nil (P : Params) (s s' : State) (a : Action) (hn : s.gws = []) 
     · simp only [Option.some.injEq] at h; subst h; exact hn
     · simp at h
   case failedUpload => simp only [Option.some.injEq] at h; subst h; exact hn
+  case readFault => simp only [Option.some.injEq] at h; subst h; exact hn
 
 theorem run_inv (P : Params) (hT : P.levelTie = true) :
     ∀ (acts : List Action) (s s' : State), (P.ignoreDelay + P.lag < P.deleteDelay ∨ s.gws = []) →
